@@ -38,23 +38,38 @@ def run(ctx):
     back = call_sites(f, lambda p, c: re.search(r"::(rev|next_back|rfold|rfind|last|nth_back)$", p) is not None)
     for s in back:
         r1.violation("Sender::read reverse iteration", "Sender::read calls %s" % s.term.callee_path(), s.loc)
-    fwd = [s for s in nexts if re.search(r"btree.*(IterMut|Iter|ValuesMut|Values)", (s.term.callee().get("substs") or [""])[0])]
-    if fwd:
+    BT = r"btree.*(IterMut|Iter|ValuesMut|Values)"
+    fwd = [s for s in nexts if re.search(BT, (s.term.callee().get("substs") or [""])[0])]
+    # the same loop written with the std adaptor: `sessions.values_mut().find_map(|q| read_priority_queue(..))` polls the queues forwards and
+    # stops at the first Some by the adaptor's contract
+    rpq_closures = set(cp for cp in prog.with_closures(f.path) if cp != f.path and
+                       call_sites(prog.funcs[cp], lambda p, c: p.endswith("Sender::read_priority_queue")))
+    fmaps = [s for s in call_sites(f, lambda p, c: p.endswith("Iterator::find_map"))
+             if re.search(BT, (s.term.callee().get("substs") or [""])[0]) and any(z == "closure:" + cp for z in sl.sources(s.expr) for cp in rpq_closures)]
+    if fwd or fmaps:
         # iterator built from &mut self.sessions
-        srcs = sl.sources(fwd[0].expr)
+        it = (fwd or fmaps)[0]
+        srcs = sl.sources(it.expr)
         if any(z.startswith("var:self.sessions") for z in srcs):
-            r1.ok("Sender::read forward BTreeMap iteration", (fwd[0].term.callee().get("substs") or [""])[0][:90], fwd[0].loc)
+            r1.ok("Sender::read forward BTreeMap iteration", (it.term.callee().get("substs") or [""])[0][:90], it.loc)
         else:
-            r1.violation("Sender::read forward BTreeMap iteration", "the iterator polled in read() is not over self.sessions", fwd[0].loc)
+            r1.violation("Sender::read forward BTreeMap iteration", "the iterator polled in read() is not over self.sessions", it.loc)
     else:
         r1.violation("Sender::read forward BTreeMap iteration", "no forward BTreeMap iterator over self.sessions found in read()", loc(f.sp))
+
+    def queue_derived(e):
+        z = sl.sources(e, control=False)
+        return any("read_priority_queue" in y for y in z) or (fmaps and any(y == "closure:" + cp for y in z for cp in rpq_closures))
+
     # first Some wins: a `return data` (value from read_priority_queue) dominated by data.is_some()
-    rets = ret_assign_blocks(f.body, lambda e: any("read_priority_queue" in z for z in sl.sources(e)))
+    rets = ret_assign_blocks(f.body, queue_derived)
     if not rets:
         raise model.AnchorMissing("Sender::read never returns the result of read_priority_queue")
     for bb, e in rets:
         fs = flow.facts_at(bb)
-        ok = any(a[0] == "variant" and a[2] == "Some" and t and show(a[1]) == show(e) for (a, t) in fs)
+        # the value returned on this path was tested: a dominating `is Some` fact on the value itself or on the queue result it is taken from
+        ee = show(e, 400) + " " + show(sl.expand(e), 400)
+        ok = any(a[0] == "variant" and a[2] == "Some" and t and (show(a[1]) == show(e) or (show(a[1], 400) in ee and queue_derived(a[1]))) for (a, t) in fs)
         if ok:
             r1.ok("Sender::read returns first Some", "", loc(f.body.blocks[bb].term.sp))
         else:
